@@ -1,0 +1,21 @@
+//go:build verif
+
+package gcs
+
+// SimHook, when set (only by the verification harness, before any goroutine
+// that queries a Filter is started), is called at every simulation point.
+var SimHook func(site int)
+
+func simPoint(site int) {
+	if h := SimHook; h != nil {
+		h(site)
+	}
+}
+
+// Exported site numbers, so the harness can enable subsets per run.
+const (
+	SimSiteReadValue = siteReadValue
+	SimSiteQueryLoop = siteQueryLoop
+	SimSiteCopied    = siteCopied
+	SimSiteCount     = siteCount
+)
